@@ -102,8 +102,8 @@ def run(rep, ctx, tier):
             note = ""
             if ps != vs and sk == "marlin_pst13" and pst13_has_no_degree_bounds(f):
                 # E2: the shared Marlin accumulator has a degree-bound branch that PST13 can never take
-                vs2 = drop_guarded(vs, "degree_bound")
-                ps2 = drop_guarded(ps, "degree_bound")
+                vs2 = drop_guarded(vs, "degree-bound")
+                ps2 = drop_guarded(ps, "degree-bound")
                 if ps2 == vs2:
                     note = " (exception E2: the verifier's degree-bound branch is dead for PST13 - commit always passes None)"
                     ps, vs = ps2, vs2
